@@ -21,6 +21,8 @@ EXTENDS LinAlg, TLC
 
 CONSTANTS Part, Instances, CovMasked, KeyedByPolicy, MaxLen,
           SetTargetsClears,    \* "all": set_train_data drops the prediction strategy (current code) | "active": only the active policy's entry
+          LayoutTest,          \* how the 'mask' branch of the likelihood terms recognises a task-major multitask distribution:
+                               \* "event" (current code: event rank 2 and not interleaved) | "meanrank" (the mean is a matrix: false for a batch)
           FantasyCacheLive     \* BOOLEAN: the mean cache carried into a fantasy strategy (computed by a NaN-unaware low-rank update) is
                                \* stored under a key that later predictions look up (current code: FALSE - the entry is never found)
 
@@ -111,9 +113,29 @@ DFantasy(p) ==
 \* every prediction is the deletion answer for the CURRENT targets under the CURRENT policy, computed NaN-aware
 ServedCurrent == Part = "datahist" => c.served = c.want
 
+\* ============================== layout ==========================================================
+\* The likelihood terms (expected_log_prob / log_marginal) under 'mask' select the observed entries of mean, targets and noise with
+\* a flat boolean mask and the SAME flat mask, reshaped, on the rows/columns of the covariance.  The covariance of a multitask
+\* distribution is ordered point by point (interleaved: k = (i-1) T + t) or task by task (k = (t-1) N + i).  The code transposes
+\* mean / targets / noise / mask to task-major before flattening iff it recognises a task-major distribution.
+\* case: [il : BOOLEAN, rank : batch rank of the distribution 0..2, obs : set of observed <<i, t>>]
+LN == 2
+LT == 3
+LCells == {<<i, t>> : i \in 1..LN, t \in 1..LT}
+LayoutCases == [il : BOOLEAN, rank : 0..2, obs : {LCells, LCells \ {<<1, 2>>}, LCells \ {<<1, 2>>, <<2, 1>>}, {<<1, 1>>, <<2, 3>>}, {<<1, 2>>, <<2, 1>>, <<2, 3>>}}]
+Transposes(q) == CASE LayoutTest = "event"    -> ~q.il                     \* event rank of a multitask distribution is 2 whatever its batch
+                   [] LayoutTest = "meanrank" -> ~q.il /\ q.rank = 0        \* the mean has q.rank + 2 dimensions
+\* flat position of cell <<i, t>> in the order the code flattens mean / targets / noise / mask
+FlatPos(q, cell) == IF Transposes(q) THEN (cell[2] - 1) * LN + cell[1] ELSE (cell[1] - 1) * LT + cell[2]
+\* the cell the covariance holds at flat position k
+CovCell(q, k) == IF q.il THEN <<((k - 1) \div LT) + 1, ((k - 1) % LT) + 1>> ELSE <<((k - 1) % LN) + 1, ((k - 1) \div LN) + 1>>
+\* every selected entry of the mean is paired with the variance of the same (point, task) cell, and exactly the observed cells are kept
+LayoutPaired == Part = "layout" => \A cell \in c.obs : CovCell(c, FlatPos(c, cell)) = cell
+
 Init ==
   /\ hist = <<>>
-  /\ IF Part = "algebra" THEN c \in Instances
+  /\ IF Part = "layout" THEN c \in LayoutCases ELSE
+     IF Part = "algebra" THEN c \in Instances
      ELSE IF Part = "datahist" THEN c = DInit
      ELSE c = [cache |-> {}, computedUnder |-> [k \in Policies \cup {"any"} |-> "none"], served |-> "none", want |-> "none"]
 Next == IF Part = "machine" THEN (Reset \/ \E p \in Policies : Predict(p))
